@@ -2,4 +2,5 @@ From Coq Require Import ExtrOcamlBasic.
 From MT Require Import Dag.DagTreeModel Dag.DagRecordModel.
 Extraction Language OCaml.
 Separate Extraction wf nonnegb leaves work count_kind dag_of edge_count longest_path
-  record root_info summ_none summ_setting summ_choice materialized.
+  record root_info summ_none summ_setting summ_choice materialized
+  stat_work stat_edges.
